@@ -65,3 +65,19 @@ _add(
     deciding={"any": {"positive_instants": 30000, "switch_day_instants": 20000, "hostile_strings": 1000, "via_format_constraint_evaluation": 100}},
     headline=["positive_instants", "switch_day_instants", "random_instants", "hostile_strings", "via_format_constraint_evaluation"],
 )
+
+_add(
+    "C18",
+    shards=(2, 14),
+    timeout=(900, 3600),
+    title="key categories and the generated product",
+    rule=(
+        "classification: every integer 0..3000 plus leading-zero, huge, package and non-numeric spellings; extraction: token-level generated "
+        "expressions (keys at all range boundaries, packages from a fixed table incl. nested and unknown ones, time conditions, out-of-range keys) "
+        "with all four combinations of the resolution flags, compared with a regex-based reference partition; union law on pairs of expressions; "
+        "product: every (m, n) up to the tier's bound with random key sets, result set compared with the reference Cartesian product. distinct "
+        "non-trivial = range boundaries + extraction cases with >= 2 non-empty categories + union pairs + product shapes"
+    ),
+    deciding={"any": {"classified_integers": 3001, "extract_cases": 300, "union_cases": 50, "product_shapes": 20, "extract_unknown_package": 1, "extract_out_of_range": 1}},
+    headline=["classified_integers", "extract_cases", "union_cases", "product_shapes", "product_results_checked"],
+)
